@@ -330,3 +330,45 @@ pub fn permutations(n: usize) -> Vec<Vec<usize>> {
     rec(&mut Vec::new(), &mut vec![false; n], n, &mut out);
     out
 }
+
+/// table of materialised operands indexed by truth table: dense for small function spaces,
+/// sparse (hash map) when only a pool of a large space is materialised
+pub enum FStore<P: Copy> {
+    Dense(Vec<P>),
+    Sparse(std::collections::HashMap<usize, P>, P),
+}
+
+impl<P: Copy> FStore<P> {
+    pub fn new(total: usize, default: P, sparse: bool) -> FStore<P> {
+        if sparse {
+            FStore::Sparse(std::collections::HashMap::new(), default)
+        } else {
+            FStore::Dense(vec![default; total])
+        }
+    }
+    pub fn empty(default: P) -> FStore<P> {
+        FStore::Sparse(std::collections::HashMap::new(), default)
+    }
+}
+
+impl<P: Copy> std::ops::Index<usize> for FStore<P> {
+    type Output = P;
+    fn index(&self, i: usize) -> &P {
+        match self {
+            FStore::Dense(v) => &v[i],
+            FStore::Sparse(m, d) => m.get(&i).unwrap_or(d),
+        }
+    }
+}
+
+impl<P: Copy> std::ops::IndexMut<usize> for FStore<P> {
+    fn index_mut(&mut self, i: usize) -> &mut P {
+        match self {
+            FStore::Dense(v) => &mut v[i],
+            FStore::Sparse(m, d) => {
+                let dd = *d;
+                m.entry(i).or_insert(dd)
+            }
+        }
+    }
+}
